@@ -221,17 +221,23 @@ Definition apply_one (l : list cmode) (m : cmode) : list cmode :=
 Definition apply_modes (c : cmodes) (ms : list cmode) : cmodes :=
   cm_set_modes c (fold_left apply_one ms (cm_modes c)).
 
+(* has_mode / mode_get take the mode as the byte stored, i.e. HasMode(string(rune(name))) /
+   Get(string(rune(name))); the string-keyed API is has_mode_str / mode_get_str at the end. *)
 Definition has_mode (c : cmodes) (name : N) : bool := existsb (fun m => m_name m =? name) (cm_modes c).
 Fixpoint mode_get (l : list cmode) (name : N) : option str :=
   match l with
   | [] => None
   | m :: r => if m_name m =? name then (match m_args m with [] => None | a => Some a end) else mode_get r name
   end.
+(* Go's string(b) for a byte b is the UTF-8 encoding of the code point b (not the byte):
+   two bytes for b >= 0x80.  CModes.String, HasMode and Get all go through it. *)
+Definition byte_as_rune (b : N) : str :=
+  if b <? 128 then [b] else [192 + b / 64; 128 + b mod 64].
 (* CModes.String(): "+" names, then " " arg for every non-empty arg *)
 Definition modes_string (c : cmodes) : str :=
   match cm_modes c with
   | [] => []
-  | l => 43 :: List.map m_name l ++ flat_map (fun m => match m_args m with [] => [] | a => 32 :: a end) l
+  | l => 43 :: flat_map (fun m => byte_as_rune (m_name m)) l ++ flat_map (fun m => match m_args m with [] => [] | a => 32 :: a end) l
   end.
 
 (* Perms *)
@@ -675,4 +681,15 @@ Fixpoint run (cfg : config) (s : state) (h : list event) : res (state * list out
           | Ok (s'', o') => Ok (s'', o ++ o')
           end
       end
+  end.
+
+(* ---------- CModes.HasMode(mode string) / Get(mode string), as written ---------- *)
+(* `string(c.modes[i].name) == mode`: a stored byte >= 0x80 is found under its two-byte
+   UTF-8 form only. *)
+Definition has_mode_str (c : cmodes) (mode : str) : bool :=
+  existsb (fun m => streqb (byte_as_rune (m_name m)) mode) (cm_modes c).
+Fixpoint mode_get_str (l : list cmode) (mode : str) : option str :=
+  match l with
+  | [] => None
+  | m :: r => if streqb (byte_as_rune (m_name m)) mode then (match m_args m with [] => None | a => Some a end) else mode_get_str r mode
   end.
